@@ -3,7 +3,8 @@ import dyncheck
 
 CHECKS = {}
 for _p in dyncheck.PLANS:
-    CHECKS[_p] = dyncheck.run
+    if _p != "C12":
+        CHECKS[_p] = dyncheck.run
 import buildcheck
 
 for _p in buildcheck.PLANS:
@@ -39,3 +40,4 @@ def merged(*runners):
 
 
 CHECKS["C17"] = merged(dyncheck.run, primcheck.run)
+CHECKS["C12"] = merged(lifecheck.run, dyncheck.run)
